@@ -98,6 +98,11 @@ STRUCT = {
          'self.q.prepare(self.s + self.a.get())'],
         ['match self.s:', '    case self.c1 if self.b.get() == 0:', '        self.s = 0', '    case self.c0:', '        self.s = 1',
          'self.q.prepare(self.s)'],
+        # guarded case followed by an unguarded case for the same named value, no default
+        ['match self.s:', '    case self.c0 if self.a.get() == 1:', '        self.s = 1', '    case self.c0:', '        self.s = 2',
+         '    case self.c1:', '        self.s = 0', 'self.q.prepare(self.s)'],
+        ['match self.s:', '    case 1 if self.a.get() > 0:', '        self.s = 0', '    case 1:', '        self.s = 2', '    case 0:',
+         '        self.s = 1', '    case 2:', '        self.s = 1', 'self.q.prepare(self.s)'],
     ],
     'ternary': [
         ['self.s = 1 if self.a.get() else 0', 'self.q.prepare(self.s)'],
